@@ -84,6 +84,12 @@ func (h *Hub) IsAutoAcceptEnabled() bool {
 	return h.autoaccept
 }
 
+func (h *Hub) checkHasShutdown() bool {
+	h.muxStarted.Lock()
+	defer h.muxStarted.Unlock()
+	return h.hasShutdown
+}
+
 func (h *Hub) checkHasStarted() bool {
 	h.muxStarted.Lock()
 	defer h.muxStarted.Unlock()
